@@ -585,7 +585,15 @@ func (u *Unit) callModifies(common *ssa.CallCommon, ms *modSet) {
 	}
 	if c == nil {
 		ms.all = true
+		// a call without contract may change every ghost global (see havocCall)
+		for _, gv := range u.eng.contracts.GhostGlobals {
+			ms.ghosts[gv.Name] = ""
+		}
 		return
+	}
+	// ghost state the callee declares to write (also for callees that leave the heap alone)
+	for _, g := range c.GhostWrites {
+		ms.ghosts[g] = ""
 	}
 	if c.Pure {
 		return
